@@ -326,6 +326,34 @@ Definition sc_prepare_dags (ds : list (bytes * trace)) : option (N * list bytes 
 (* the store.Get calls of one run, in order *)
 Definition sc_gets_dags (ds : list (bytes * trace)) : list bytes := map fst (fst (dag_loads ds)).
 
+(* ---- legacy writers into a destination that fails ------------------------------------------------------ *)
+(* util.LdWrite hands the destination one Write per slice: the length varint, then each slice
+   (header: varint, header bytes; section: varint, cid, data), and stops at the first error.
+   The destination fails at its k-th Write call (0-based): [short = false] it accepts nothing of that
+   call, [short = true] it accepts the first half of it; either way it returns an error. *)
+Definition hdr_chunks (hb : bytes) : list bytes := [put_uv (blen hb); hb].
+Definition sec_chunks (b : block) : list bytes := [put_uv (blen (fst b) + blen (snd b)); fst b; snd b].
+(* bytes the destination accepted, and whether the fault was reached *)
+Fixpoint fault_write (k : N) (short : bool) (chunks : list bytes) : bytes * bool :=
+  match chunks with
+  | [] => ([], false)
+  | c :: t =>
+    if k =? 0 then ((if short then take (blen c / 2) c else []), true)
+    else (c ++ fst (fault_write (N.pred k) short t), snd (fault_write (N.pred k) short t))
+  end.
+(* SelectiveCar.Write into such a destination (the write error aborts the walk): accepted bytes, ok *)
+Definition sc_write_faulty (fk : N) (short : bool) (ds : list (bytes * trace)) : bytes * bool :=
+  let cbs := fst (sc_traverse (dag_roots ds) (fst (dag_loads ds))) in
+  let r := fault_write fk short
+             (hdr_chunks (enc_header (Some (dag_roots ds)) 1)
+              ++ flat_map (fun c => sec_chunks (cb_cid c, cb_data c)) cbs) in
+  (fst r, snd (dag_loads ds) && negb (snd r)).
+(* A history in one process: a write into a failing destination, then fault-free writes.  Nothing is
+   carried from one call to the next (no package-level state in the model of util.LdWrite): the
+   history's second component is by construction the stand-alone answer. *)
+Definition sc_history (fk : N) (short : bool) (ds1 : list (bytes * trace)) (k : nat) (ds2 : list (bytes * trace))
+  : (bytes * bool) * (bytes * list (nat * cb) * bool) * option (N * list bytes * list bytes) :=
+  (sc_write_faulty fk short ds1, sc_write_dags k ds2, sc_prepare_dags ds2).
 (* ---- root module: car.go WriteCar / WriteCarWithWalker -------------------------------- *)
 (* merkledag.Walk presents CIDs to seen.Visit; on a first visit enumGetLinks fetches the node
    and writes its section.  [vs] = the CIDs presented, each with the bytes the NodeGetter
@@ -339,3 +367,15 @@ Fixpoint wc_walk (seen : list bytes) (vs : list block) : bytes :=
 (* roots = None: a nil slice *)
 Definition write_car (roots : option (list bytes)) (vs : list block) (ok : bool) : bytes * bool :=
   (ld (enc_header roots 1) ++ wc_walk [] vs, ok).
+
+(* WriteCar into such a destination *)
+Definition write_car_faulty (fk : N) (short : bool) (roots : option (list bytes)) (vs : list block) (ok : bool)
+  : bytes * bool :=
+  let r := fault_write fk short (hdr_chunks (enc_header roots 1) ++ flat_map sec_chunks (first_occ vs)) in
+  (fst r, ok && negb (snd r)).
+
+Definition wc_history (fk : N) (short : bool) (r1 : option (list bytes)) (vs1 : list block) (ok1 : bool)
+                      (r2 : option (list bytes)) (vs2 : list block) (ok2 : bool)
+  : (bytes * bool) * (bytes * bool) :=
+  (write_car_faulty fk short r1 vs1 ok1, write_car r2 vs2 ok2).
+
